@@ -86,6 +86,11 @@ def gen_reader_cases(ctx, n_streams):
     for line in fc.load_corpus('C06', 'reader.txt'):
         cases.append(fc.case_from_line(line))
         tags.append(({'corpus'}, 'corpus'))
+    # the buffer exactly full with 6 bytes consumed: a 5-byte exception reply, then a 256-byte reply whose address byte is consumed
+    small, huge = fc.rtu_frame(9, bytes([0x83, 2])), fc.rtu_frame(7, bytes([3, 251]) + bytes(range(251)))
+    for tail in [[huge[255:]], [huge[255:256] + small], [bytes([b]) for b in huge[255:]]]:
+        directed.append(('rtursp', [small + huge[:255]] + tail))
+        directed.append(('rtursp', [small, huge[:100], huge[100:255]] + tail))
     for role, d in directed:
         for fin in ['eof', 'pending']:
             for mode in ['stop', 'resume']:
@@ -351,6 +356,8 @@ def run(ctx):
             bump(cls + ('->rejected' if 'BadFrame' in impl else '->other'))
         if stats.get('compactions', 0) > 0:
             bump('buffer:compacted')
+        if 0 < stats.get('min_compaction', 0) <= 7:
+            bump('buffer:full_with_1..7_consumed')        # end == capacity with begin in 1..7: compaction frees exactly that much
     for e, l in zip(emitted, emit_lines):
         bump('emit:' + l.split()[1] + (':refused' if e == 'ERR' else ''))
     for i in client_impl:
@@ -361,7 +368,7 @@ def run(ctx):
     if not ctx.replay:
         need = (['corrupt:%s->rejected' % c for c in CLASSES] + ['stream:fc:%d' % f for f in fc.FCS] +
                 ['stream:exception_reply', 'stream:length_preserving', 'stream:length_changing', 'ending:Crc', 'ending:UnknownFunctionCode',
-                 'ending:FrameLengthTooBig', 'role:rtureq', 'role:rtursp', 'schedule:byte_per_byte', 'mode:resume', 'stream:stale_state_bait', 'client_result:Ok', 'client_result:BadFrame', 'client_result:Exception'])
+                 'ending:FrameLengthTooBig', 'role:rtureq', 'role:rtursp', 'schedule:byte_per_byte', 'mode:resume', 'stream:stale_state_bait', 'buffer:full_with_1..7_consumed', 'client_result:Ok', 'client_result:BadFrame', 'client_result:Exception'])
         missing = [k for k in need if classes.get(k, 0) < 3]
         ctx.oblige('generator-reaches-expected-classes', not missing, 'missing: ' + ','.join(missing))
     nontrivial = set(fc.to_line(c) for c, (t, _) in zip(cases, tags) if any(x.startswith('corrupt:') for x in t))
